@@ -82,11 +82,13 @@ def run(ctx):
                 'source address, correct first of two, wrong first of two) on the responder; COOKIE / second COOKIE / COOKIE then '
                 'INVALID_KE rounds on the initiator; distinct = distinct (count, variant)')
     COOKIE = int(M.PayloadNOTIFY.Type.COOKIE)
+    DEEP = []          # histories whose handler calls and loop iterations are replayed on the Lean model at the end
     for threshold in (0, 2):
         for pre in range(max(0, threshold - 1), threshold + 3):
             seed = rng.randrange(1 << 30)
             ca, cb = conf_pair()
-            with CP.History(seed, trace=False, conf_a=ca, conf_b=cb) as h:
+            with CP.History(seed, trace=ctx.driver is not None, deep=True, conf_a=ca, conf_b=cb) as h:
+                DEEP.append(h)
                 w = h.w
                 w.B.controller.cookie_threshold = threshold
                 # `pre` half-open responder IKE_SAs on B: genuine IKE_SA_INIT requests with fresh SPIs, never continued
@@ -216,7 +218,8 @@ def run(ctx):
         threshold = 2
         seed = rng.randrange(1 << 30)
         ca, cb = conf_pair()
-        with CP.History(seed, trace=False, conf_a=ca, conf_b=cb) as h:
+        with CP.History(seed, trace=ctx.driver is not None, deep=True, conf_a=ca, conf_b=cb) as h:
+            DEEP.append(h)
             w = h.w
             w.B.controller.cookie_threshold = threshold
             # one own initiator IKE_SA of B, stopped in INIT_REQ_SENT (2) or AUTH_REQ_SENT (3)
@@ -257,6 +260,10 @@ def run(ctx):
                          % (half_open, CP.ST[own_state], threshold, kinds, n_dh, table0, len(w.B.sas())), rep)
     res.sample({'cookie variants': ['absent', 'correct', 'corrupted', 'truncated', 'other-spi', 'other-nonce', 'other-address', 'two-correct-first',
                                     'two-wrong-first']})
+    for h in DEEP:
+        if h.tr is not None:
+            h.tr.enabled = False
+            S.deep_check(ctx, res, h.tr)
     return res
 
 
